@@ -54,6 +54,18 @@ BreakFree == { <<" ">>, <<" ", " ">>, <<"\t">>, <<" ", "/", "*", "*", "/", " ">>
 LayoutFree == P.mode = "layout" => \A s \in (IF P.syntax = "property" THEN BreakFree ELSE Seps) : Shape(Sc(FlatSep(word, s)).toks) = Shape(Sc(FlatSep(word, <<" ">>)).toks)
                                                    /\ Sc(FlatSep(word, s)).errs = Sc(FlatSep(word, <<" ">>)).errs
 
+(* (mode "names": every letter is a name) a name that the builder reports as a type is handed to the grammar as a type name, whatever else it
+   spells - in a model the path-quantifier letters and the soft keywords are identifiers like any other; a name that is no keyword of the syntax
+   and no type is an identifier or one of the tokens the grammar re-admits as identifiers (NonTypeId) *)
+IdLike == {"T_ID"} \cup Rng(P.idlike)
+NamesAreNames == P.mode = "names" =>
+                    \A l \in Rng(word) : LET w == Join(l)
+                                           asType == Scan(l, P.syntax, {w})
+                                           plain == Scan(l, P.syntax, {}) IN
+                                       /\ (P.syntax # "property" /\ ~(w \in DOMAIN KwTab /\ Admits(P.syntax, KwTab[w].syntax))) =>
+                                              (Len(asType.toks) = 1 /\ asType.toks[1].t = "T_TYPENAME" /\ asType.toks[1].s = w)
+                                       /\ ~(w \in DOMAIN KwTab /\ Admits(P.syntax, KwTab[w].syntax)) =>
+                                              (Len(plain.toks) = 1 /\ plain.toks[1].t \in IdLike)
 Subject == CASE P.mode = "comment" -> P.pre \o <<"/", "*">> \o Text \o <<"*", "/">> \o P.post
              [] P.mode = "line" -> P.pre \o <<"/", "/">> \o Text \o <<"\n">> \o P.post
              [] P.mode = "layout" -> FlatSep(word, <<" ">>)
